@@ -157,7 +157,12 @@ func checkC08(c *Ctx, r *rep.Report) {
 		ruleSwap(r, p)
 		timed("bitorigin", func() { ruleBitOrigin(r, p, "modm"); ruleBitOrigin(r, p, "curve25519") })
 		ruleVartimePredicates(r, p)
-		timed("magnitudes+exact", func() { ruleMagnitudes(r, p, "curve25519"); ruleMagnitudes(r, p, "modm"); ruleExponentChains(r, p) })
+		timed("magnitudes+exact", func() {
+			ruleMagnitudes(r, p, "curve25519")
+			ruleMagnitudes(r, p, "modm")
+			ruleExponentChains(r, p)
+			ruleExactModm(r, p)
+		})
 	}
 }
 
@@ -220,6 +225,7 @@ func checkC19(c *Ctx, r *rep.Report) {
 		ruleExpandLengths(r, p)
 		ruleBitOrigin(r, p, "modm")
 		ruleVartimePredicates(r, p)
+		ruleExactModm(r, p)
 		ruleMagnitudes(r, p, "modm")
 	}
 }
@@ -240,5 +246,6 @@ func scalarLayer(c *Ctx, r *rep.Report) {
 		ruleExpandLengths(r, p)
 		ruleBitOrigin(r, p, "modm")
 		ruleVartimePredicates(r, p)
+		ruleExactModm(r, p)
 	}
 }
